@@ -387,6 +387,7 @@ class FileWriter(FileBase):
         if self.bitsinfo.nbits < 32 and self.rescale:
             # arr should be normalized first
             arr = self.bitsinfo.quantize(arr)
+        arr = np.asarray(arr).astype(self.bitsinfo.dtype, copy=False)
         if self.bitsinfo.unpack:
             packed = pack(arr, self.bitsinfo.nbits, bitorder=self.bitsinfo.bitorder)
             packed.tofile(self.file_obj)
